@@ -778,8 +778,15 @@ func (d *driver) blockStreams(thorough bool) {
 	for i := 0; i < nW; i++ {
 		var fields []fieldSpec
 		names := []string{"f", "g", "h", "k", "m"}[:d.r.Range(1, 5)]
-		heavy := i%(nW/nHeavy) == 1
+		// heavy cases: one field larger than a regular block (chunked by the generator, flushed by the
+		// writer). The first has the big field FIRST with an odd token count (last chunk shorter than
+		// blockSize, fields following it in the next physical block), the others have it anywhere.
+		heavy := i < 2*nHeavy
 		hf := d.r.Intn(len(names))
+		if heavy && i%2 == 0 {
+			names = []string{"f", "g", "h", "k", "m"}[:d.r.Range(2, 4)]
+			hf = 0
+		}
 		for fi, n := range names {
 			var toks []string
 			c := d.r.Range(1, 7)
@@ -788,8 +795,12 @@ func (d *driver) blockStreams(thorough bool) {
 			}
 			switch c {
 			case 0: // more than a regular block: the field is chunked and forces a new physical block
-				for k := d.r.Range(9, 12); k > 0; k-- {
-					toks = append(toks, d.fill(d.r.Range(1500, 2200)))
+				cnt := d.r.Range(9, 12)
+				if i%2 == 0 {
+					cnt = rng.Pick(d.r, []int{9, 11})
+				}
+				for k := 0; k < cnt; k++ {
+					toks = append(toks, fmt.Sprintf("%02d", k)+d.fill(d.r.Range(1900, 2200)))
 				}
 				toks = uniqSorted(toks)
 			case 1:
